@@ -861,6 +861,12 @@ impl Ctx {
     /// Run `bytes` in the given modes. `expect_err`: the generator injected an over-long length.
     /// `compare`: false ⇒ request is written as a `#` comment line (oracle only; not sent to the model).
     fn case(&mut self, class: &str, bytes: &[u8], modes: &[&str], expect_err: bool, nontrivial: bool, compare: bool) {
+        // A tree that hangs or crashes on many inputs is reported from the first failures; do not spend
+        // hours of watchdog time on the rest.
+        if self.runner.hangs + self.runner.aborts > 60 {
+            self.out.bucket("skipped_after_60_hangs_or_aborts");
+            return;
+        }
         let hex = hex_encode(bytes);
         let scan_overlong = toplevel_overlong(bytes);
         for mode in modes {
